@@ -1355,6 +1355,20 @@ class _MapExtend(ast.NodeTransformer):
                 if not isinstance(x, (ast.FunctionDef, ast.AsyncFunctionDef, ast.Lambda, ast.ClassDef)):
                     stack += list(ast.iter_child_nodes(x))
 
+    def visit_For(self, node):
+        self.generic_visit(node)
+        it = node.iter
+        # for v in chain(a, b, ..): BODY  ->  for v in a: BODY; for v in b: BODY; ..  (the parts are walked in this order)
+        if isinstance(it, ast.Call) and ast.unparse(it.func) in ("itertools.chain", "chain") and it.args and not it.keywords and not any(isinstance(a, ast.Starred) for a in it.args) and not node.orelse and not _has_loop_jump(node.body, (ast.Break,)) and len(it.args) <= 6:
+            out = []
+            for a in it.args:
+                lp = copy.deepcopy(node)
+                lp.iter = a
+                out.append(lp)
+            self.n += 1
+            return out
+        return node
+
     def visit_ClassDef(self, node):
         self.cls.append(node.name)
         self.generic_visit(node)
@@ -1838,6 +1852,17 @@ def _attrgetters(tree):
                 return ast.copy_location(ast.BinOp(left=node.args[0], op=binops[nm.split(".", 1)[1]](), right=node.args[1]), node)
             return node
 
+    # name = methodcaller("m", a..) bound to a local: the function `lambda o: o.m(a..)` (applied where it is called by the
+    # pass that applies single-assigned local lambdas)
+    for fdef in [n for n in ast.walk(tree) if isinstance(n, (ast.FunctionDef, ast.AsyncFunctionDef))]:
+        for st in ast.walk(fdef):
+            if isinstance(st, ast.Assign) and len(st.targets) == 1 and isinstance(st.targets[0], ast.Name):
+                v = st.value
+                if isinstance(v, ast.Call) and ast.unparse(v.func) in ("operator.methodcaller", "methodcaller") and v.args and isinstance(v.args[0], ast.Constant) and isinstance(v.args[0].value, str) and v.args[0].value.isidentifier() and not any(isinstance(a, ast.Starred) for a in v.args) and all(_simple(a) for a in v.args[1:]) and all(k.arg and _simple(k.value) for k in v.keywords):
+                    count[0] += 1
+                    par = "_receiver%d" % count[0]
+                    body = ast.Call(func=ast.Attribute(value=ast.Name(id=par, ctx=ast.Load()), attr=v.args[0].value, ctx=ast.Load()), args=list(v.args[1:]), keywords=list(v.keywords))
+                    st.value = ast.fix_missing_locations(ast.copy_location(ast.Lambda(args=ast.arguments(posonlyargs=[], args=[ast.arg(arg=par)], vararg=None, kwonlyargs=[], kw_defaults=[], kwarg=None, defaults=[]), body=body), v))
     _G().visit(tree)
     return count[0]
 
